@@ -533,6 +533,13 @@ func (a *Authenticator) authenticate(username string, password []byte, chapRespo
 	}
 
 	if a.radiusClient != nil {
+		// The RADIUS client leaves User-Password out when the password is empty (MAC
+		// authentication), so the server would be asked about the user name alone.
+		if len(password) == 0 {
+			result.RejectReason = "Empty password"
+			return result
+		}
+
 		ctx, cancel := context.WithTimeout(context.Background(), a.config.Timeout)
 		defer cancel()
 		authResp, err := a.radiusClient.Authenticate(ctx, &radius.AuthRequest{
